@@ -21,7 +21,10 @@ import tomllib
 VERIF = os.path.dirname(os.path.dirname(os.path.abspath(__file__)))
 REPO = os.environ.get("VERIF_REPO", "/repo")
 VX = os.path.join(VERIF, "vx", "target", "release", "vx")
-OUT = os.path.join(VERIF, "out")
+# VERIF_OUT / VERIF_EVIDENCE / VERIF_REPO let a regression run (lib/seedregress.sh) work on a scratch copy of the repository
+# beside the registered checks, which always use /repo, /verif/out and /verif/evidence
+OUT = os.environ.get("VERIF_OUT") or os.path.join(VERIF, "out")
+EVIDENCE = os.environ.get("VERIF_EVIDENCE") or os.path.join(VERIF, "evidence")
 
 EXIT_TOOL = 2
 
